@@ -45,6 +45,14 @@ func (an *Analyzer) analyzeFunc(fn *ssa.Function, f *Frame, in *State, final boo
 	an.Reached[fn]++
 	if trace {
 		fmt.Fprintf(os.Stderr, "%senter %s (state: vals=%d ints=%d mem=%d iv=%d ub=%d)\n", strings.Repeat(" ", f.depth), fn.Name(), len(in.vals), len(in.ints), len(in.mem), len(in.iv), len(in.ub))
+		if os.Getenv("VERIF_OBL_TRACE") == fn.Name() {
+			for t, v := range in.iv {
+				fmt.Fprintf(os.Stderr, "   iv %s = %v\n", t, v)
+			}
+			for t, c := range in.mem {
+				fmt.Fprintf(os.Stderr, "   mem %s = %+v\n", t, c)
+			}
+		}
 		defer func(d int) { fmt.Fprintf(os.Stderr, "%sleave %s\n", strings.Repeat(" ", d), fn.Name()) }(f.depth)
 	}
 	ins := make([]*blockIn, len(fn.Blocks))
@@ -60,6 +68,48 @@ func (an *Analyzer) analyzeFunc(fn *ssa.Function, f *Frame, in *State, final boo
 				header[sc.Index] = true
 			}
 		}
+	}
+	// per loop header: the addresses of the instructions and blocks of its natural loop (the header block itself
+	// excluded: its merge terms are handled by the join). Terms whose key embeds one of them are (re)defined in every
+	// iteration, so whatever the back-edge states know about them describes the previous iteration.
+	loopMarks := map[int]map[uint64]bool{}
+	loopBlocks := map[int]map[*ssa.BasicBlock]bool{}
+	for _, b := range fn.Blocks {
+		for _, sc := range b.Succs {
+			if !sc.Dominates(b) {
+				continue
+			}
+			blocks := loopBlocks[sc.Index]
+			if blocks == nil {
+				blocks = map[*ssa.BasicBlock]bool{sc: true}
+				loopBlocks[sc.Index] = blocks
+			}
+			stack := []*ssa.BasicBlock{b}
+			for len(stack) > 0 {
+				x := stack[len(stack)-1]
+				stack = stack[:len(stack)-1]
+				if blocks[x] {
+					continue
+				}
+				blocks[x] = true
+				stack = append(stack, x.Preds...)
+			}
+		}
+	}
+	for h, blocks := range loopBlocks {
+		marks := map[uint64]bool{}
+		for blk := range blocks {
+			if blk.Index != h {
+				marks[ptrOf(blk)] = true
+			}
+			for _, ins := range blk.Instrs {
+				if _, isPhi := ins.(*ssa.Phi); isPhi && blk.Index == h {
+					continue // the header's phis are defined by the join itself
+				}
+				marks[ptrOf(ins)] = true
+			}
+		}
+		loopMarks[h] = marks
 	}
 	type edgeKey struct{ from, to int }
 	edges := map[edgeKey][]*State{}
@@ -139,7 +189,7 @@ func (an *Analyzer) analyzeFunc(fn *ssa.Function, f *Frame, in *State, final boo
 				if succ.Index == 0 {
 					entry = append(entry, in)
 				}
-				ej := an.groupJoin(entry, fmt.Sprintf("%s:b%d:entry", f.key, succ.Index))
+				ej := an.groupJoin(entry, fmt.Sprintf("%s:b%d@%p:entry", f.key, succ.Index, succ))
 				for _, bs := range back {
 					if bs == nil || bs.dead || len(ej) == 0 {
 						continue
@@ -178,10 +228,10 @@ func (an *Analyzer) analyzeFunc(fn *ssa.Function, f *Frame, in *State, final boo
 				}
 			}
 			sin := ins[succ.Index]
-			np := an.groupJoin(incoming, fmt.Sprintf("%s:b%d", f.key, succ.Index))
+			np := an.groupJoin(incoming, fmt.Sprintf("%s:b%d@%p", f.key, succ.Index, succ))
 			if header[succ.Index] && len(sin.parts) > 0 && sin.visits >= 3*widenAfter {
 				// still moving: force monotone accumulation
-				np = an.accumulate(sin.parts, np, fmt.Sprintf("%s:b%d", f.key, succ.Index), true)
+				np = an.accumulate(sin.parts, np, fmt.Sprintf("%s:b%d@%p", f.key, succ.Index, succ), true)
 			} else if header[succ.Index] && len(sin.parts) > 0 && sin.visits >= widenAfter {
 				// loop header: widen against the previous entry state so that the iteration terminates
 				for _, n := range np {
@@ -190,6 +240,20 @@ func (an *Analyzer) analyzeFunc(fn *ssa.Function, f *Frame, in *State, final boo
 							an.widen(o, n)
 						}
 					}
+				}
+			}
+			if trace && os.Getenv("VERIF_OBL_TRACE") == fn.Name() && header[succ.Index] {
+				for _, n := range np {
+					for t, v := range n.iv {
+						if t.kind == "len" && strings.Contains(t.String(), "mphi") {
+							fmt.Fprintf(os.Stderr, "   header b%d visit %d: %s = %v (same=%v)\n", succ.Index, sin.visits, t, v, sameParts(sin.parts, np))
+						}
+					}
+				}
+			}
+			if header[succ.Index] {
+				for _, n := range np {
+					an.purgeLoopLocal(n, f, loopMarks[succ.Index], loopBlocks[succ.Index])
 				}
 			}
 			if !sameParts(sin.parts, np) {
@@ -790,4 +854,131 @@ func definedBefore(v ssa.Value, b *ssa.BasicBlock) bool {
 		return db != nil && db != b && db.Dominates(b)
 	}
 	return false
+}
+
+func ptrOf(x interface{}) uint64 {
+	var v uint64
+	fmt.Sscanf(fmt.Sprintf("%p", x), "0x%x", &v)
+	return v
+}
+
+// purgeLoopLocal removes from a loop-header entry state everything it says about terms that the loop body defines
+// anew in every iteration (values of the body's instructions, objects it allocates, results and frames of the calls
+// it makes, merge points inside it, memory versions it creates). What flows into the next iteration does so through
+// the header's merge terms, whose facts the join has copied from the incoming values.
+func (an *Analyzer) purgeLoopLocal(s *State, f *Frame, marks map[uint64]bool, blocks map[*ssa.BasicBlock]bool) {
+	if len(marks) == 0 || s == nil {
+		return
+	}
+	local := func(t *Term) bool { return t != nil && t.touches(marks) }
+	for addr, c := range s.mem {
+		if local(addr) || (!c.int && local(c.t)) || (c.int && local(c.lin.base)) {
+			delete(s.mem, addr)
+		}
+	}
+	for t := range s.iv {
+		if local(t) {
+			delete(s.iv, t)
+		}
+	}
+	for x, m := range s.ub {
+		for y := range m {
+			if local(x) || local(y) {
+				s.delUB(x, y)
+			}
+		}
+	}
+	for t := range s.nn {
+		if local(t) {
+			delete(s.nn, t)
+		}
+	}
+	for t := range s.isnil {
+		if local(t) {
+			delete(s.isnil, t)
+		}
+	}
+	for t := range s.dyn {
+		if local(t) {
+			delete(s.dyn, t)
+		}
+	}
+	for t := range s.tbl {
+		if local(t) {
+			delete(s.tbl, t)
+		}
+	}
+	for t := range s.part {
+		if local(t) {
+			delete(s.part, t)
+		}
+	}
+	var gs []guard
+	for _, g := range s.guards {
+		if !local(g.on) {
+			gs = append(gs, g)
+		}
+	}
+	s.guards = gs
+	for c, e := range s.epoch {
+		_ = c
+		_ = e
+	}
+	// SSA bindings of the body's own instructions and of the frames below it
+	inLoop := func(k vkey) bool {
+		if k.f == f {
+			if ins, ok := k.v.(ssa.Instruction); ok && ins.Block() != nil && blocks[ins.Block()] {
+				if _, isPhi := k.v.(*ssa.Phi); isPhi && ins.Block().Index == headerIndex(blocks) {
+					return false
+				}
+				return true
+			}
+			return false
+		}
+		// deeper frames entered from a call in the loop
+		for fr := k.f; fr != nil; fr = fr.parent {
+			if fr.parent == f {
+				for _, p := range hexTokens(fr.key[len(f.key):]) {
+					if marks[p] {
+						return true
+					}
+				}
+				return false
+			}
+		}
+		return false
+	}
+	for k := range s.vals {
+		if inLoop(k) {
+			delete(s.vals, k)
+		}
+	}
+	for k := range s.ints {
+		if inLoop(k) {
+			delete(s.ints, k)
+		}
+	}
+	for k := range s.tuples {
+		if inLoop(k) {
+			delete(s.tuples, k)
+		}
+	}
+}
+
+func headerIndex(blocks map[*ssa.BasicBlock]bool) int {
+	// the header dominates all blocks of its loop: it has the smallest dominator depth; go/ssa numbers it first
+	best := -1
+	for b := range blocks {
+		dom := true
+		for o := range blocks {
+			if !b.Dominates(o) {
+				dom = false
+				break
+			}
+		}
+		if dom {
+			best = b.Index
+		}
+	}
+	return best
 }
